@@ -95,62 +95,73 @@ def r1_identifiers(ctx: Ctx) -> None:
         ok = any(isinstance(s, ast.Assign) and src(s.value).endswith('.id.lower()') for s in ast.walk(m.node))
         ctx.check(ok, 'C04.R1', m, f'define:{mname}', 'loop / walrus variable stored lower-cased', 'loop or walrus variable is stored as written but looked up lower-cased', m.node)
 
-    def key_lowered(f: FuncInfo, key_expr, at) -> bool:
+    def key_lowered(f: FuncInfo, key_expr, at, tables=()) -> bool:
         fl = get_flow(proj, f)
         for leaf, ops in fl.leaf_paths(key_expr, at):
-            if leaf.startswith('const:') and not any(o.startswith(('call:', 'op:')) for o in ops):
+            # a key read back from a table of this function whose own keys are checked is lower-case by induction
+            if any(o == f'name:{t}' and any(x in ('call:items', 'call:keys', 'op:iter') for x in ops[i + 1:i + 3]) for i, o in enumerate(ops) for t in tables):
+                continue
+            if leaf.startswith('loopvar:') and any(f'name:{t}' in ops2 for l2, ops2 in fl.leaf_paths(key_expr, at) if l2 != leaf for t in tables) and 'call:lower' not in ops:
+                continue
+            if leaf.startswith('const:'):
                 v = leaf[6:]
-                if v != v.lower():
+                if v == v.lower() and not any(o in ('call:upper', 'call:title', 'call:capitalize', 'call:swapcase') for o in ops):
+                    continue            # a lower-case literal (or a number / slice bound) contributes no capitals
+                if 'call:lower' not in ops:
                     return False
                 continue
             if 'call:lower' not in ops:
                 return False
         return True
 
-    # writers: (function, predicate on store target, description)
+    # writers: every store under a computed key (and every let-binding tuple) in the functions that define user-named identifiers.
+    # Containers are identified by shape (self.variables, <rule>['fields'], n-th local table), never by the local variable's name.
+    WRITERS = ('merchant_engine.MerchantEngine.parse', 'section_engine.parse_sections', 'merchant_utils.apply_transforms',
+               'config_loader.load_supplemental_sources', 'format_parser.parse_format_string')
     sites = []
-    mp = proj.func('merchant_engine.MerchantEngine.parse')
-    for s in ast.walk(mp.node):
-        if isinstance(s, ast.Assign):
-            for t in s.targets:
-                if isinstance(t, ast.Subscript) and src(t.value) == 'self.variables':
-                    sites.append((mp, t.slice, s, 'top-level variable'))
-                if isinstance(t, ast.Subscript) and src(t.value) == "current_rule['fields']":
-                    sites.append((mp, t.slice, s, 'field: name'))
-        if isinstance(s, ast.Call) and isinstance(s.func, ast.Attribute) and s.func.attr == 'append' and src(s.func.value) == "current_rule['let_bindings']" \
-                and s.args and isinstance(s.args[0], ast.Tuple):
-            sites.append((mp, s.args[0].elts[0], s, 'let: name'))
-    ps = proj.func('section_engine.parse_sections')
-    for s in ast.walk(ps.node):
-        if isinstance(s, ast.Assign):
-            for t in s.targets:
-                if isinstance(t, ast.Subscript) and src(t.value) in ('global_variables', 'current_section.variables'):
-                    sites.append((ps, t.slice, s, f'view variable ({src(t.value)})'))
-    at = proj.func('merchant_utils.apply_transforms')
-    for s in ast.walk(at.node):
-        if isinstance(s, ast.Assign):
-            for t in s.targets:
-                if isinstance(t, ast.Subscript) and src(t.value) == "transaction['field']":
-                    sites.append((at, t.slice, s, 'transform target field'))
-    ls = proj.func('config_loader.load_supplemental_sources')
-    for s in ast.walk(ls.node):
-        if isinstance(s, ast.Assign):
-            for t in s.targets:
-                if isinstance(t, ast.Subscript) and src(t.value) == 'data_sources':
-                    sites.append((ls, t.slice, s, 'supplemental source name'))
-                if isinstance(t, ast.Subscript) and src(t.value) == 'column_map' and not isinstance(t.slice, ast.Constant):
-                    sites.append((ls, t.slice, s, 'supplemental row key'))
-    pf = proj.func('format_parser.parse_format_string')
-    for s in ast.walk(pf.node):
-        if isinstance(s, ast.Assign):
-            for t in s.targets:
-                if isinstance(t, ast.Subscript) and src(t.value) in ('custom_captures', 'field_positions'):
-                    sites.append((pf, t.slice, s, f'CSV capture name ({src(t.value)})'))
+    for q in WRITERS:
+        f = proj.func(q)
+        fl = get_flow(proj, f)
+        local_order: List[str] = []
+        stores = []
+        for st in all_nodes(f.node):
+            if isinstance(st, ast.Assign):
+                for t in st.targets:
+                    if isinstance(t, ast.Subscript):
+                        stores.append((st, t))
+        stores.sort(key=lambda x: (x[0].lineno, x[0].col_offset))
+
+        def shape(e) -> str:
+            if isinstance(e, ast.Name):
+                if fl.is_local(e.id) and e.id not in f.params:
+                    if e.id not in local_order:
+                        local_order.append(e.id)
+                    return f'local#{local_order.index(e.id) + 1}'
+                return e.id
+            if isinstance(e, ast.Attribute):
+                return f'{shape(e.value)}.{e.attr}'
+            if isinstance(e, ast.Subscript) and isinstance(e.slice, ast.Constant):
+                return f'{shape(e.value)}[{e.slice.value!r}]'
+            return '?'
+
+        checked_local: Dict[str, List[bool]] = {}
+        dyn = []
+        for st, t in stores:
+            sh = shape(t.value)
+            if isinstance(t.slice, ast.Constant):
+                if isinstance(t.value, ast.Name) and isinstance(t.slice.value, str):
+                    checked_local.setdefault(t.value.id, []).append(t.slice.value == t.slice.value.lower())
+                continue
+            dyn.append((st, t, sh))
+        for st, t, sh in dyn:
+            sites.append((f, t.slice, st, sh, {c for c, oks in checked_local.items() if all(oks)} | {t2.value.id for _s, t2, _h in dyn if isinstance(t2.value, ast.Name)}))
+        for n, e in find(f.node, "V_r['let_bindings'].append((E_k, ANY))"):
+            sites.append((f, n.args[0].elts[0], n, "rule['let_bindings']", set()))
     ctx.need(not (len(sites) < 8), f'C04.R1: only {len(sites)} definition sites found (10 confirmed by hand)')
-    for f, key, node, what in sites:
-        ok = key_lowered(f, key, node)
-        ctx.check(ok, 'C04.R1', f, f'define:{what}', f'{what} stored under a lower-cased key ({src(key)})',
-                  f'{what} is stored under {src(key)!r} as written, but every lookup lower-cases the name: a definition spelled with capitals can never be found '
+    for f, key, node, sh, tables in sites:
+        ok = key_lowered(f, key, node, tables)
+        ctx.check(ok, 'C04.R1', f, f'define:{sh}', f'name stored in {sh} under a lower-cased key ({src(key)})',
+                  f'{sh}: a user-chosen name is stored under {src(key)!r} as written, but every lookup lower-cases the name: a definition spelled with capitals can never be found '
                   f'(changing the letter case of a name changes the result)', node)
 
 
